@@ -123,12 +123,15 @@ def run(ctx) -> None:
         ctx.visit(d.fq, it.fq, wf.fq, getdiff)
 
         def file_loop(fn) -> ast.For:
-            ls = [n for n in walk_no_nested(fn.node) if isinstance(n, ast.For) and "iter_path_patterns_items" in unparse(n.iter)]
+            ls = [n for n in walk_no_nested(fn.node) if isinstance(n, ast.For) and "iter_path_patterns_items" in unparse(shapes.inline(fn, n.iter, prog))]
             ctx.require(len(ls) == 1 and isinstance(ls[0].target, ast.Tuple) and len(ls[0].target.elts) == 2, f"{fn.fq}: file loop shape changed")
             return ls[0]
         ld, li = file_loop(d), file_loop(it)
-        # (1) iterator
-        core = lambda e, fn: unparse(e).replace("sorted(", "", 1)[:-1] if unparse(e).startswith("sorted(") else unparse(e)
+        # (1) iterator: the same call with the same arguments on both paths (an extra `missing_ok=True` on the diff path only
+        #     makes --dry succeed where the real run fails)
+        def core(e: ast.AST, fn: T.Any) -> str:
+            t_ = unparse(shapes.inline(fn, e, prog))
+            return t_.replace("sorted(", "", 1)[:-1] if t_.startswith("sorted(") else t_
         a, b = core(ld.iter, d), core(li.iter, it)
         ok = a == f"rewrite.iter_path_patterns_items({d.params[2]})" and b == f"rewrite.iter_path_patterns_items({it.params[0]})"
         n_points += 1
@@ -282,6 +285,27 @@ def run(ctx) -> None:
                                                or unparse(c.func).split(".")[-1].endswith("get_diff")) for c in ast.walk(val)):
                 seeds |= {x.id for x in ast.walk(tg) if isinstance(x, ast.Name)}
         tainted = shapes.tainted_names(fn, seeds) if seeds else set()
+        # the diff text is not cut: no slice of it, and no helper of these modules receives a line of it and returns a piece
+        comp_vars: T.Set[str] = set()
+        for cmp_ in ast.walk(fn.node):
+            if isinstance(cmp_, (ast.ListComp, ast.GeneratorExp)):
+                for g_ in cmp_.generators:
+                    if shapes.expr_tainted(g_.iter, tainted):
+                        comp_vars |= {x.id for x in ast.walk(g_.target) if isinstance(x, ast.Name)}
+        t_all = tainted | comp_vars
+        for x in ast.walk(fn.node):
+            if isinstance(x, ast.Subscript) and isinstance(x.slice, ast.Slice) and isinstance(x.ctx, ast.Load) and shapes.expr_tainted(x.value, t_all) and fq != "cli._colored_diff_lines":
+                ctx.bad("R4", f"{fq}: the diff text is cut before it is printed", f"`{unparse(x)[:80]}`", loc=fn.loc(x), what=f"{fq}: diff text is not cut")
+            if isinstance(x, ast.Call) and any(shapes.expr_tainted(a_, t_all) for a_ in x.args):
+                t_ = prog.resolve_call(fn, x, count=False)
+                if t_.kind == "func" and t_.fn is not None and t_.fn.fq not in diff_fns and t_.fn.module.name in ("rewrite", "cli", "v1rewrite", "v2rewrite"):
+                    cuts = [y for y in ast.walk(t_.fn.node) if isinstance(y, ast.Subscript) and isinstance(y.slice, ast.Slice) and isinstance(y.ctx, ast.Load)
+                            and any(isinstance(z, ast.Name) and z.id in t_.fn.all_params for z in ast.walk(y.value))]
+                    cuts += [y for y in ast.walk(t_.fn.node) if isinstance(y, ast.Call) and isinstance(y.func, ast.Attribute) and (y.func.attr in EDITS or (y.func.attr in TRIMS and not (y.args and set(const_str(y.args[0]) or "x") <= {"\n"})))
+                             and any(isinstance(z, ast.Name) and z.id in t_.fn.all_params for z in ast.walk(y.func.value))]
+                    ctx.check("R4", not cuts, f"{fq}: helper {t_.fn.fq} passes diff text through unchanged", f"{fq}: the diff text is cut / edited by {t_.fn.fq} before it is printed",
+                              f"`{unparse(cuts[0])[:80]}`: the printed hunk no longer matches the file (it cannot be applied and does not show what the real run writes)" if cuts else "",
+                              loc=t_.fn.loc(cuts[0]) if cuts else fn.loc(x), witness={"line": "a 300 character line of a minified file"})
         for c in ast.walk(fn.node):
             if not (isinstance(c, ast.Call) and isinstance(c.func, ast.Attribute) and (c.func.attr in TRIMS or c.func.attr in EDITS)):
                 continue
@@ -297,6 +321,27 @@ def run(ctx) -> None:
             else:
                 ctx.bad("R4", f"{fq}: the diff text is edited before it is printed", f"`{unparse(c)[:80]}`", loc=fn.loc(c), what=f"{fq}: diff text is not edited")
     ctx.floor("R4", "functions between difflib and click.echo", n_fn, 6)
+    # what is printed when stdout is not a terminal is the diff text itself (one echo of the whole text): re-splitting it
+    # with str.splitlines() would also break lines at form feeds, vertical tabs, U+2028 ...
+    pds = prog.function("cli._print_diff_str")
+    pg = cfgs.get(pds.fq)
+    ppc = PathCond(pg)
+    tty = [a_ for a_ in ppc.atoms if a_.endswith("isatty()")]
+    echoes = [c_ for c_ in ast.walk(pds.node) if isinstance(c_, ast.Call) and unparse(c_.func) in ("click.echo", "print", "sys.stdout.write")]
+    ctx.floor("R4", "echo calls in _print_diff_str", len(echoes), 1)
+    if len(tty) == 1:
+        for c_ in echoes:
+            r_ = ppc.reach(pg.node_containing(c_))
+            if (r_ & ~BF.var(tty[0])).is_false():
+                continue          # only reached on a terminal (coloured output)
+            arg = shapes.inline(pds, c_.args[0], prog) if c_.args else None
+            plain = arg is not None and isinstance(arg, ast.Name) and arg.id == pds.params[0] and not shapes.enclosing_loops(pds, c_)
+            ctx.check("R4", plain, f"_print_diff_str: without a terminal the diff text `{pds.params[0]}` is echoed as it is",
+                      "cli._print_diff_str: the plain diff is re-assembled before it is printed",
+                      f"`{unparse(c_)}`" + (" inside a loop" if shapes.enclosing_loops(pds, c_) else "") + ": lines are split at every Unicode line boundary (form feed, vertical tab, U+2028), "
+                      "so a changed or context line containing one is printed as two lines and the output is no longer an applicable unified diff", loc=pds.loc(c_), witness={"line": "page break\x0cnext page"})
+    else:
+        ctx.require(False, "_print_diff_str: no branch on sys.stdout.isatty()")
 
     # ---------------------------------------------------------------- R5
     pd_nodes = [ucfg.node_containing(c) for c in pdc]
